@@ -6,6 +6,7 @@ import (
 	"fmt"
 	"go/token"
 	"go/types"
+	"os"
 	"sort"
 	"strings"
 
@@ -56,26 +57,27 @@ type loopInfo struct {
 }
 
 type Frame struct {
-	g        *Gen
-	fn       *ssa.Function
-	regs     map[ssa.Value]Val
-	cells    map[*ssa.Alloc]*Cell
-	byName   map[string][]*ssa.Alloc
-	params   []Val
-	freeVars []Val
-	defers   []*deferRec
-	rets     []retRec
-	depth    int
-	top      bool
-	con      *Contract
-	entry    *State
-	loops    map[*ssa.BasicBlock]*loopInfo
-	nopanic  bool
-	unsupp   []string
-	inFrom   map[*State]*ssa.BasicBlock
-	deadVals map[*ssa.Alloc]Val
-	varargs  map[string][]Val // slice term -> the values stored into the variadic array it was made from
-	arrElems map[*Cell]map[int64]Val
+	g              *Gen
+	fn             *ssa.Function
+	regs           map[ssa.Value]Val
+	cells          map[*ssa.Alloc]*Cell
+	byName         map[string][]*ssa.Alloc
+	params         []Val
+	freeVars       []Val
+	defers         []*deferRec
+	rets           []retRec
+	depth          int
+	top            bool
+	con            *Contract
+	entry          *State
+	loops          map[*ssa.BasicBlock]*loopInfo
+	nopanic        bool
+	unsupp         []string
+	inFrom         map[*State]*ssa.BasicBlock
+	deadVals       map[*ssa.Alloc]Val
+	lastFrameParts map[string]string
+	varargs        map[string][]Val // slice term -> the values stored into the variadic array it was made from
+	arrElems       map[*Cell]map[int64]Val
 }
 
 type engineError struct{ msg string }
@@ -629,7 +631,7 @@ func (fr *Frame) enterLoop(li *loopInfo, st *State) *State {
 		g.assumeUnder(ns.path, ri)
 	}
 	for _, inv := range li.spec.Invariants {
-		t := fr.evalBool(inv.Expr, &specCtx{fr: fr, st: ns, old: fr.entry, kind: ctxInv})
+		t := fr.evalBool(inv.Expr, &specCtx{fr: fr, st: ns, old: fr.entry, kind: ctxInv, assumed: true})
 		g.assumeUnder(ns.path, t)
 	}
 	if li.spec.Decreases != nil {
@@ -687,7 +689,14 @@ func (fr *Frame) loopStoreRefs(li *loopInfo, k string, ns *State) ([]string, boo
 func (fr *Frame) closeLoop(li *loopInfo, st *State) {
 	g := fr.g
 	if fr.con != nil && fr.con.HasAssigns {
-		g.oblige("frame", fmt.Sprintf("L%d", li.ord), st.path, fr.frameFormula(st), "assigns clause holds after every loop iteration")
+		if os.Getenv("GOVC_FRAMESPLIT") != "" {
+			fr.frameFormula(st)
+			for k, gl := range fr.lastFrameParts {
+				g.oblige("frame", fmt.Sprintf("L%d.%s", li.ord, sanitize(k)), st.path, gl, "assigns clause after loop iteration (key "+k+")")
+			}
+		} else {
+			g.oblige("frame", fmt.Sprintf("L%d", li.ord), st.path, fr.frameFormula(st), "assigns clause holds after every loop iteration")
+		}
 	}
 	if ri := fr.rangeInvariant(li, st); ri != "" {
 		g.oblige("inv", fmt.Sprintf("L%d.range", li.ord), st.path, ri, "range loop index is within -1..len-1 (preserved)")
